@@ -241,13 +241,18 @@ def replay_rank(cf):
     return (1 if big else 0, len(json.dumps(jsonable(c))))
 
 
+SHRINK_SECONDS = float(os.environ.get('VERIF_SHRINK_SECONDS', '150'))
+
+
 def shrink(P, case, known, budget=400):
     """greedy delta debugging with the property's own candidate generator; keeps a case while the
-    implementation still fails the oracle in an unexplained way"""
+    implementation still fails the oracle in an unexplained way.  Bounded by a number of re-executions AND by wall time
+    (a failing case with a 300-run timeline takes seconds per execution): what is reached by then is the replay."""
     cur = case
     steps = 0
     improved = True
-    while improved and steps < budget:
+    t_end = time.time() + SHRINK_SECONDS
+    while improved and steps < budget and time.time() < t_end:
         improved = False
         def cands():
             if cur.get('prelife'):
@@ -255,7 +260,7 @@ def shrink(P, case, known, budget=400):
             yield from P.shrink_candidates(cur)
         for cand in cands():
             steps += 1
-            if steps > budget:
+            if steps > budget or time.time() > t_end:
                 break
             try:
                 _, _, _, fails, _ = eval_one(P, cand)
